@@ -17,9 +17,9 @@ from .speclib import U32, describe, is_mode, mk, snap, states1, states2, states3
 
 def scopes(tier):
     if tier == "thorough":
-        return dict(V1=(-1, 0, 1, 2), N1=4, V2=(0, 1, 2), N2=3, C2=2, V3=(0, 1), N3=2, T3=(2, 2),
+        return dict(V1=(-1, 0, 1, 2), N1=4, V2=(0, 1, 2), N2=3, C2=2, V3=(0, 1), N3=2, T3=((2, 2), (2, 3), (3, 2)),
                     PV1=(-1, 0, 1, 2), PN1=3, PV2=(0, 1), PN2=2, PC2=2, max_maps=200, max_updates=700)
-    return dict(V1=(-1, 0, 1, 2), N1=3, V2=(0, 1, 2), N2=2, C2=2, V3=(0, 1), N3=1, T3=(2, 2),
+    return dict(V1=(-1, 0, 1, 2), N1=3, V2=(0, 1, 2), N2=2, C2=2, V3=(0, 1), N3=1, T3=((2, 2), (2, 3), (3, 2)),
                 PV1=(-1, 0, 1, 2), PN1=2, PV2=(0, 1), PN2=2, PC2=2, max_maps=60, max_updates=160)
 
 
@@ -35,7 +35,8 @@ def unary_jobs(sc):
     fam = []
     fam += [("1d", d, c) for d, c in states1(sc["N1"], sc["V1"])]
     fam += [("2d", d, c) for d, c in states2(sc["N2"], sc["C2"], sc["V2"])]
-    fam += [("3d", d, c) for d, c in states3(sc["N3"], sc["T3"], sc["V3"])]
+    for t3 in sc["T3"]:
+        fam += [("3d", d, c) for d, c in states3(sc["N3"], t3, sc["V3"])]
     # boundary magnitudes: values that need wider dtypes, many rows of one value
     for d, c in [([300, 0, 300], 0), ([70000, 1, 1], 1), ([0] * 6 + [2, 2, 3], 0), ([5, 5, 5, 5], 9)]:
         fam.append(("1d", np.array(d, dtype=np.int64), c))
@@ -114,9 +115,11 @@ def do_unary_12d(d, c, sc, st, nz, ex, vals):
     for img in itertools.product([None, 0, 1, 5], repeat=len(vals)):
         maps.append({v: t for v, t in zip(vals, img) if t is not None})
     for mp in _spread(maps, sc["max_maps"]):
-        for kw in ({}, {"copy": False}, {"shift": False}):
-            if kw and (mp is None or len(mp) % 2):
+        for kw in ({}, {"copy": False}, {"shift": False}, {"assume_unique": True}, {"assume_unique": True, "shift": False}):
+            if kw and "assume_unique" not in kw and (mp is None or len(mp) % 2):
                 continue
+            if kw.get("assume_unique") and mp is not None and len(set(mp.values())) == len(mp):
+                continue  # nothing is merged by an injective mapping: same as the default call
             x = mk(d, c)
             _try(lambda: x.reindexed(dict(mp) if mp is not None else None, **kw))
             st.call(nz, {"op": "reindexed", "state": ex, "mapping": mp, "kw": kw})
@@ -197,6 +200,8 @@ def do_unary_slicing(d, c, sc, st, nz, ex, vals):
             MON.check("iindexes.iindex.slices1d/ensures-view-coords-each-exactly-once", sorted(co for co, _ in sl) == want,
                       lambda: "coordinates %r, expected %r" % ([co for co, _ in sl], want), ex)
             for co, s in sl:
+                if tuple(co) not in set(want):
+                    continue  # a phantom coordinate: already reported by the coordinates clause above
                 w = wf(s)
                 MON.check("iindexes.iindex.slices1d/ensures-wf-of-slice", not w, lambda: "slice %r not well-formed: %r" % (co, w), ex)
                 okv = (not w) and s.shape == (d.shape[0],) and np.array_equal(view(s), d[(slice(None),) + tuple(co)]) and s.common == c
